@@ -1,5 +1,5 @@
 """C44 After a configuration change, traffic goes to the current target.  Spec: ClientCfg (families conn, conn_gen)."""
-import json, shutil, threading
+import json, os, shutil, threading
 import vf, clientlib
 
 HOSTS = ["h1", "h2"]
@@ -184,7 +184,16 @@ def run(ck):
             return box["mc"], box["gen"], box["seq"]
         return join
 
-    speculative = None if ck.replay is not None else models(False)    # TLC runs while the driver is built
+    # TLC runs while the driver is built; which model variant describes the tree is decided by the probe below, the source text
+    # only provides the first guess (a wrong guess costs a second TLC round)
+    guess = False
+    try:
+        with open(os.path.join(vf.REPO, "tun/client/client.go")) as f:
+            body = f.read().split("func (c *Client) handleIncomingDelegation", 1)[1].split("\nfunc ", 1)[0]
+        guess = "configMu.RLock()" in body
+    except Exception:
+        pass
+    speculative = None if ck.replay is not None else models(guess)
     binary = ck.build("client")
     d = clientlib.scratch_dir(ck, "c44")
     outs, scen = [], []
@@ -208,9 +217,9 @@ def run(ck):
         judge(ck, probe, po, "probe")
         ck.extra["connection_path_excludes_changes"] = locked
         r, g, q = speculative()
-        if locked:    # the model as coded does not describe this tree: use the variant with the exclusion
+        if locked != guess:    # the other model variant describes this tree
             ck.states = ck.transitions = 0
-            r, g, q = models(True)()
+            r, g, q = models(locked)()
         if r.error:
             if r.error["kind"] != "invariant" or not r.trace_json:
                 raise vf.Infra("unexpected TLC result: %s" % r.error)
